@@ -2,6 +2,8 @@
    Every signature reduces to the Cartesian variant by the commuting squares of C01 (restated first). *)
 From Coq Require Import Reals.
 From VP Require Import Lib RLib Spec Compute Tables Spec_planar Spec_spatial2 C10_rot.
+From VP Require ObjModel ObjNames NbModel NbApi NbChecks.
+Import ObjNames List.ListNotations.
 Open Scope R_scope.
 
 Theorem C10_all_signatures_reduce_to_cartesian : forall s l a b c,
@@ -65,6 +67,15 @@ Proof. exact quaternion_is_axis. Qed.
 Theorem C10_euler_is_documented_product : forall o (phi theta psi x y z : R),
   den3 (T_spatial_rotate_euler XY LZ o phi theta psi x y z) = Some (euler_spec o phi theta psi (x, y, z)).
 Proof. exact euler_is_product. Qed.
+
+
+(* the same laws hold in numba-compiled code: for these operations every program point of the numba-supported API has the
+   same outcome (class, coordinate system, field expressions over the generated compute definitions) through the
+   Numba overload layer as through the interpreter (T5 table, gen/NbApi*.v; exceptions: the C07 known findings) *)
+Theorem C10_compiled_rotations_are_the_interpreted_ones :
+  VP.NbChecks.agree_on [N_rotateZ; N_rotateX; N_rotateY; N_rotate_axis; N_rotate_nautical; N_rotate_quaternion; N_rotate_euler_default; N_rotate_euler_xzx; N_rotate_euler_xyx; N_rotate_euler_yxy; N_rotate_euler_yzy; N_rotate_euler_zyz; N_rotate_euler_zxz; N_rotate_euler_xzy; N_rotate_euler_xyz; N_rotate_euler_yxz; N_rotate_euler_yzx; N_rotate_euler_zyx; N_rotate_euler_zxy]%list = true /\
+  Nat.ltb 100 (VP.NbChecks.count_on [N_rotateZ; N_rotateX; N_rotateY; N_rotate_axis; N_rotate_nautical; N_rotate_quaternion; N_rotate_euler_default; N_rotate_euler_xzx; N_rotate_euler_xyx; N_rotate_euler_yxy; N_rotate_euler_yzy; N_rotate_euler_zyz; N_rotate_euler_zxz; N_rotate_euler_xzy; N_rotate_euler_xyz; N_rotate_euler_yxz; N_rotate_euler_yzx; N_rotate_euler_zyx; N_rotate_euler_zxy]%list) = true.
+Proof. vm_cast_no_check (conj (eq_refl true) (eq_refl true)). Qed.
 
 Example C10_nonvacuous : euler_spec E_zyx 0 0 0 (1, 2, 3) = (1, 2, 3) /\ Rx PI (0, 1, 0) = (0, -1, 0).
 Proof.
